@@ -68,7 +68,12 @@ Emit ==
                 IN Add(Add(Add(Mul(val(0, One), val(0, One)),
                                SumSeq(Tup([k \in 1..sc.N |-> Mul(val(d, ctl[k]), val(d, ctl[k]))]))),
                            SumSeq(Tup([k \in 1..sc.N |-> Mul(Mul(sc.T, Sub(ctl[k + 1], ctl[k])), val(1, ctl[k]))]))),
-                       SumSeq(Tup([k \in 1..sc.N |-> milne(k)])))]))
+                       Add(SumSeq(Tup([k \in 1..sc.N |-> milne(k)])),
+                           \* + sum(dx'dx) with dx = next([x1; x2]) - [x1; x2]: a rate penalty, one term per interval (nodes k+1 and k)
+                           SumSeq(Tup([k \in 1..sc.N |->
+                                  LET d0 == Sub(val(0, ctl[k + 1]), val(0, ctl[k]))
+                                      d1 == Sub(val(1, ctl[k + 1]), val(1, ctl[k]))
+                                  IN Add(Mul(d0, d0), Mul(d1, d1))]))))]))
 Post == /\ ndJsonSerialize(IOEnv.OUT_FILE, TLCGet(1)) /\ PrintT(<<"emitted", Len(TLCGet(1))>>)
 ASSUME TLCSet(1, <<>>)
 =============================================================================
